@@ -94,7 +94,9 @@ def planFields (s : Schema) (col : Collector) :
           | none => none      -- "unknown field": the validator has already run
           | some fd =>
             (planType s col fuel fd.type cf.sels).map fun sh =>
-              ({ alias := cf.alias, name := cf.name, dirs := fd.dirs, deferred := cf.deferred, objDef := cf.objDef,
+              -- the chain of a field: its schema directives innermost, then the executable directives the
+              -- selection carries (`_fieldMiddleware`: the last one outermost)
+              ({ alias := cf.alias, name := cf.name, dirs := fd.dirs ++ cf.fdirs, deferred := cf.deferred, objDef := cf.objDef,
                  plain := fd.plain }, sh)
 
 def planType (s : Schema) (col : Collector) : Nat → TRef → List Sel → Option Shape
